@@ -16,6 +16,7 @@ import MTVerif.Model.Anno
 import MTVerif.Model.Sig
 import MTVerif.Model.Render
 import MTVerif.Model.Imports
+import MTVerif.Model.EvalAnno
 namespace MT
 open Sexp
 
@@ -243,6 +244,20 @@ def handle (st : DState) (req : Sexp) : Except String (DState × Sexp) :=
       .ok (st, .str (Render.printE (Render.renderE st.names (← tyOf t))))
   | .list [.atom "imports", t] => do
       .ok (st, .list ((Render.importsOf st.names (← tyOf t)).eraseDups.map (fun mq => .list [.str mq.1, .str mq.2])))
+  | .list [.atom "denote", own, .list sigTys, t] => do
+      -- C11: the namespace a stub for a function with annotation types `sigTys` provides; `t` rendered, stripped, evaluated
+      let ownM ← strOf own
+      let tys ← sigTys.mapM tyOf
+      let allImps := (tys.flatMap (Render.importsOf st.names)).eraseDups
+      let modsS := (allImps.map (·.1)).eraseDups
+      let mods := (modsS.mergeSort (fun a b => a.length ≥ b.length)).map Render.dotted
+      let imps := (allImps.filter (fun mq => mq.1 != ownM)).mergeSort (fun a b => a.1 < b.1 || (a.1 == b.1 && a.2 ≤ b.2))
+      let ns : Render.NS := { imports := imps, own := ownM,
+                              inv := fun m parts => (st.clsNames.find? (fun cmq => cmq.2.1 == m && Render.dotted cmq.2.2 == parts)).map (·.1) }
+      let ty ← tyOf t
+      let e := Render.stripE mods (Render.renderE st.names ty)
+      .ok (st, .list [sexpOfBool (Render.namesOk ns st.names mods ty), .str (Render.printE e),
+                      (match Render.evalE ns e with | some t' => sexpOfTy t' | none => .atom "none")])
   | .list (.atom "rootClash" :: own :: ts) => do
       let ownM ← strOf own
       let imps := ((← ts.mapM tyOf).flatMap (Render.importsOf st.names)).filter (fun mq => mq.1 != ownM)
